@@ -176,6 +176,15 @@ fn gen(g: &mut G, thorough: bool) -> Plan {
                 }
             }
             let ce: String = (0..g.usize_below(4)).map(|_| *g.pick(&["gzip", "deflate", ",", " ", "identity", "x", "GZIP", "\"", ";q=0"])).collect();
+            // (no draw) a coding list as long as a field line may be: whatever a client builds per list member,
+            // the list's length is the peer's choice
+            let ce = if (ct.len() + ce.len()) % 5 == 2 {
+                g.probe("coding-list-with-thousands-of-members");
+                let k = [40usize, 400, 2400, 2700][(ct.len() + 2 * ce.len()) % 4];
+                [["gzip, ", "deflate, ", "gzip,", "GZIP , "][ce.len() % 4].repeat(k), "gzip".to_string()].concat()
+            } else {
+                ce
+            };
             let loc: String = (0..g.usize_below(5)).map(|_| *g.pick(&["http://", "https://", "//", "/", "..", "a.test", ":", "80", "99999", "[", "]", "::1", "@", "#", "?", "%", " ", "\u{e9}", "\\"])).collect();
             // (no draw) some Locations are long, with characters of two, three and four octets at every offset
             // around the round numbers: whoever cuts, folds or excerpts such text (for a log line, say) must
